@@ -213,6 +213,19 @@ func lcdGen(c *ctx) {
 	// arithmetic survives it) and SCX rewritten around the end of mode 3 of a line (scrolling must not move any
 	// mode boundary or request)
 	l.steady(0x78, 0x90, 5*lcdFrame+200)
+	// register writes placed on each of the critical cycles of a frame (switch-on, end of the first mode 2 / mode 3,
+	// first line end, start of line 144, frame wrap) - one case per (cycle, register)
+	for _, base := range []int{0, 18, 59, 110, 16412, 17552} {
+		for d := 0; d < 6; d++ {
+			for _, wr := range []string{"ly 00", "ly 90", "lyc 90", "lyc 00", "stat 78", "lcdc 93"} {
+				l.do("reset")
+				l.do("stat 48")
+				l.ticks(base + d)
+				l.do(wr)
+				l.ticks(260)
+			}
+		}
+	}
 	// a very long on-period (more than 256 frames; thorough: more than 2^32 cycles): counters of any width wrap
 	if c.thorough() {
 		l.do(fmt.Sprintf("long %d", (1<<32)+3*lcdFrame+77))
